@@ -224,7 +224,7 @@ pub fn main(args: &[String]) -> i32 {
 				verdict = Err("child-died the client process ended before reporting".into());
 			}
 			// the quiet period: at least 0.3 - 2.5 s, and until the files of the directory have not changed in size
-			// for a full second (workers that are still writing are not stuck; a lost wake-up shows as a
+			// for one and a half seconds (workers that are still writing are not stuck; a lost wake-up shows as a
 			// directory that stays as it is while commits are missing)
 			let quiet = *rng.pick(&[300u64, 1000, 2500]);
 			std::thread::sleep(std::time::Duration::from_millis(quiet));
@@ -240,7 +240,7 @@ pub fn main(args: &[String]) -> i32 {
 				let now = sizes(&dir);
 				if now == last {
 					stable += 1;
-					if stable >= 10 {
+					if stable >= 15 {
 						break
 					}
 				} else {
